@@ -81,11 +81,11 @@ def get_ordinal_suffix(ordinal):
     else:
         ordinal = int(floor(ordinal))
         unit = ordinal % 10
-        if unit == 1 and ordinal != 11:
+        if unit == 1 and ordinal % 100 != 11:
             return "st"
-        elif unit == 2 and ordinal != 12:
+        elif unit == 2 and ordinal % 100 != 12:
             return "nd"
-        elif unit == 3 and ordinal != 13:
+        elif unit == 3 and ordinal % 100 != 13:
             return "rd"
         else:
             return "th"
